@@ -157,6 +157,23 @@ def alphabet(p):
     return [[op_to_coq(o) for o in m] for m in macros(p)]
 
 NO_PARTIAL = ('epd2in13bc', 'epd2in9bc')   # update_partial_frame is a documented no-op there
+# the vendor reference sequence waits for BUSY to go ACTIVE after PowerOff (wait_busy_low of epd5in65f)
+POFF_WAIT = ('epd5in65f',)
+# methods whose body is unimplemented!()/todo!(): outside the documented protocol, never in the alphabet
+UNIMPL = {
+ 'epd1in02': ['update_partial_frame', 'display_new_frame', 'update_and_display_new_frame'],
+ 'epd1in54b': ['update_partial_frame'], 'epd1in54c': ['update_partial_frame'],
+ 'epd2in13b_v4': ['update_partial_frame', 'set_lut'],
+ 'epd2in9_v2': ['update_partial_old_frame', 'update_partial_new_frame', 'clear_partial_frame'],
+ 'epd3in7': ['update_partial_frame'],
+ 'epd5in65f': ['update_partial_frame', 'set_lut'], 'epd5in83_v2': ['update_partial_frame', 'set_lut'],
+ 'epd5in83b_v2': ['set_lut'], 'epd7in3f': ['update_partial_frame', 'set_lut'],
+ 'epd7in5': ['update_partial_frame', 'set_lut'], 'epd7in5_hd': ['update_partial_frame', 'set_lut'],
+ 'epd7in5_v2': ['update_partial_frame', 'set_lut'], 'epd7in5b_v2': ['update_partial_frame', 'set_lut'],
+}
+# panels whose controller keeps the partial window across calls: fewer windows in the alphabet keep
+# the reachable set small (the windows left out are still run by the correspondence suites)
+FEW_WINDOWS = ('epd2in9_v2', 'epd1in02', 'epd2in9d', 'epd2in9b_v4')
 
 def macros(p):
     """macro steps as script token lists: the protocol-respecting history alphabet"""
@@ -200,6 +217,21 @@ def macros(p):
             vs = vs[:3]
         for v in vs:
             add(v)
+    bad = UNIMPL.get(p.name, [])
+    M = [m for m in M if not any(o[0] in bad for o in m)]
+    if p.name in FEW_WINDOWS:
+        # keep the canonical window and the bottom-right one of every windowed op
+        keep = []
+        seen = {}
+        for m in M:
+            if len(m[0]) >= 5 and m[0][0] in gen.WINDOWED:
+                k = m[0][0]
+                seen[k] = seen.get(k, 0) + 1
+                if seen[k] in (1, 3):
+                    keep.append(m)
+            else:
+                keep.append(m)
+        M = keep
     return M
 
 def nl(l):
@@ -229,12 +261,13 @@ def main():
             refresh = [0x12]
             busyc = [0x02, 0x04, 0x12]
         pls = planes(p)
-        cp = "mkCP %s %d %d %d %s %d %d %s %s %s %s %s %s %d %d\n      %s\n      %s None" % (
+        cp = "mkCP %s %d %d %d %s %d %d %s %s %s %s %s %s %d %d\n      %s\n      %s None %s" % (
             fam, p.W, p.H, rb(p), 'true' if x16 else 'false', rx, ry,
             '[' + '; '.join('(%d, %s)' % (c, pl) for c, pl, _ in pls) + ']',
             nl(refresh), 'true' if deep07 else 'false', 'true' if power else 'false', nl(busyc),
-            'true' if p.family == 'uc' else 'false', RES_LEN.get(p.name, 4), PTL_LEN.get(p.name, 9),
-            nl(defined), '[' + '; '.join('(%d, %s)' % (c, nl(l)) for c, l in blocks) + ']')
+            'true' if p.busy_low else 'false', RES_LEN.get(p.name, 4), PTL_LEN.get(p.name, 9),
+            nl(defined), '[' + '; '.join('(%d, %s)' % (c, nl(l)) for c, l in blocks) + ']',
+            'true' if p.name in POFF_WAIT else 'false')
         ents = entries(p)
         ent_s = ';\n     '.join('mkEntry (%s) [%s] %d' % (o, '; '.join('mkTarget %d %d %s %d %d' % t for t in ts), r)
                                 for (_, o, ts, r) in ents)
